@@ -419,6 +419,7 @@ def h_execute_untraced(spec):
     E.run_function(spec, "execute[untraced]", h_execute(spec)(False), max_paths=4000)
 
 
+h_execute_traced.shards = 16
 TASKS = [h_execute_traced, h_execute_untraced]
 
 
